@@ -104,6 +104,14 @@ pub fn positions() -> Vec<Pos> {
         p("pg-cycle-set-name", 0, |n, d| qb!(d, sel().with(WithClause::new().recursive(true).cte(CommonTableExpression::new().query(sel()).table_name(a("w")).column(a("c")).to_owned()).cycle(Cycle::new_from_expr_set_using(Expr::col(a("c")), a(n), a("p"))).to_owned()))),
         p("pg-cycle-using-name", 0, |n, d| qb!(d, sel().with(WithClause::new().recursive(true).cte(CommonTableExpression::new().query(sel()).table_name(a("w")).column(a("c")).to_owned()).cycle(Cycle::new_from_expr_set_using(Expr::col(a("c")), a("q"), a(n))).to_owned()))),
         p("as-enum-cast-type", 0, |n, d| qb!(d, Query::select().expr(Expr::col(a("c")).as_enum(a(n))))),
+        p("cast-as-quoted-type", 0, |n, d| {
+            let q = match d {
+                Dialect::Mysql => QuotedBuilder::quote(&MysqlQueryBuilder),
+                Dialect::Postgres => QuotedBuilder::quote(&PostgresQueryBuilder),
+                Dialect::Sqlite => QuotedBuilder::quote(&SqliteQueryBuilder),
+            };
+            qb!(d, Query::select().expr(SimpleExpr::from(Expr::col(a("c"))).cast_as_quoted(a(n), q)).expr(Func::cast_as_quoted("x", a(n), q)))
+        }),
         p("cast-as-type-custom-function-arg", 0, |n, d| qb!(d, Query::select().expr(Func::max(Expr::col(a(n)))))),
         // ---- schema statements
         p("create-table/table", 2, |n, d| qb!(d, Table::create().table(a(n)).col(ColumnDef::new(a("c")).integer()))),
